@@ -40,3 +40,26 @@ def tuple_confirm(s: str, t: str) -> bool:
     post: _
     """
     return ((t, s) in TS) == (t == "n" and (s == "ab" or s == "cd"))
+
+LETTERS = frozenset("abcdefghijklmnopqrstuvwxyzABCDEFGHIJKLMNOPQRSTUVWXYZ")
+
+def charset_confirm(c: str) -> bool:
+    """
+    pre: len(c) == 1
+    post: _
+    """
+    return (c in LETTERS) == (("a" <= c <= "z") or ("A" <= c <= "Z"))
+
+def charset_refute(c: str) -> bool:
+    """
+    pre: len(c) == 1
+    post: _
+    """
+    return (c in LETTERS) == ("a" <= c <= "z")
+
+def charset_long(c: str) -> bool:
+    """
+    pre: len(c) <= 2
+    post: _
+    """
+    return (c in LETTERS) == (len(c) == 1 and (("a" <= c <= "z") or ("A" <= c <= "Z")))
